@@ -32,6 +32,22 @@
 (* MiniBatch (the scan's schedule), InnerPar (the hyper-parameters as the     *)
 (* inner call receives them), SgdStep (old - new parameter for plain SGD),    *)
 (* EncGrads / EncUpdate / SaleUpdate / CriticUpdate.                          *)
+(*                                                                            *)
+(* Configuration of the MR.Q encoder (ModelBasedEncoder) and of its loss: the *)
+(* documented switches are TLC-chosen parameters of the kinds enc / encupd /  *)
+(* mrq / mrqupd:  actlast = encoder_activation_in_last_layer, normtgt =       *)
+(* normalize_targets, envterm = environment_terminates, the three weights,    *)
+(* the horizon.  The encoder's maps are named stages applied to the RAW       *)
+(* output of its `zs` sub-network in the documented order:                    *)
+(*   encode_zs(o)   = [activation if actlast] o zs_layer_norm o zs (o)        *)
+(*   dynamics target_t = stop_gradient(encoder_target.encode_zs(o'_t)) if     *)
+(*                    normalize_targets else stop_gradient(encoder_target.zs) *)
+(* (Stage, ApplyStages, EncodeZsStages, DynTargetStages).  The binding builds *)
+(* the REAL ModelBasedEncoder (real constructor, real encode_zs / encode_zsa  *)
+(* / model_head) with activation act in {"relu", "hard_tanh"} (exact on       *)
+(* dyadics; the activation is a constructor argument of the encoder) and a    *)
+(* zs_layer_norm with the exact affine map LNorm below (it does not commute   *)
+(* with the activation, so order and presence of every stage are visible).    *)
 EXTENDS Exact, FiniteSets, TLC, Json
 
 CONSTANTS EMIT,    \* TRUE: print one EMIT record per finished vector
@@ -40,7 +56,7 @@ CONSTANTS EMIT,    \* TRUE: print one EMIT record per finished vector
           NA,      \* number of discrete actions (dqn family)
           H,       \* horizon (mrq n-step, enc unroll)
           LAT,     \* "full" | "small": value lattice
-          DEV      \* "" or the name of a deviation (canaries): "noterm" "broadcast" "nosg" "encbroadcast" "updswap"
+          DEV      \* "" or the name of a deviation (canaries): "noterm" "broadcast" "nosg" "encbroadcast" "updswap" "tgtnoact"
 
 VARIABLES stage,   \* "kind" | "par" | "rows" | "done"
           kind, n, par,
@@ -72,7 +88,8 @@ SV   == IF Full THEN {Half, One, I(2)} ELSE {Half, I(2)}              \* reward 
 TSeqs == [1..H -> {0, 1}]                                             \* termination patterns over the horizon
 (* latent vectors (dimension 2); ZRaw: un-normalised embeddings whose mean |.| is a power of two *)
 ZV   == IF Full \/ Base(kind) = "sale" THEN {<<Zero, Zero>>, <<One, I(-1)>>, <<Half, I(2)>>} ELSE {<<Zero, Zero>>, <<One, I(-1)>>}
-ZT   == IF Full \/ Base(kind) = "sale" THEN {<<Zero, Zero>>, <<One, One>>, <<I(-2), Half>>} ELSE {<<One, One>>}
+(* ZT: sale - targets; enc - RAW outputs of the target encoder's zs network at o' (small: both signs after the layer norm) *)
+ZT   == IF Full \/ Base(kind) = "sale" THEN {<<Zero, Zero>>, <<One, One>>, <<I(-2), Half>>} ELSE {<<I(-2), Half>>}
 ZRaw == {<<One, One>>, <<I(2), Zero>>, <<I(3), I(-1)>>, <<Half, Q(-3, 2)>>, <<Q(-1, 2), Half>>}
 PDV  == IF Full THEN {Zero, Half, I(2)} ELSE {Zero, Half}             \* predicted done flag
 WgtV == IF Full THEN {Zero, One, I(2)} ELSE {One, I(2)}               \* loss weights
@@ -82,46 +99,55 @@ LrV  == {Half, One}                                                   \* SGD lea
 
 DefPar == [gamma |-> One, delta |-> One, alpha |-> Zero, lo |-> I(-4), hi |-> I(4), rs |-> One, trs |-> One,
            dw |-> One, rw |-> Zero, tw |-> One, envterm |-> TRUE, normtgt |-> TRUE,
+           actlast |-> FALSE,         \* ModelBasedEncoder(encoder_activation_in_last_layer=...) of BOTH encoders (enc, mrq and their routines)
+           act |-> "relu",            \* ModelBasedEncoder(activation=...): name of a flax.nnx function that is exact on dyadic rationals
            lr |-> One, td |-> 1]      \* update routines only: SGD learning rate, target_delay (number of mini-batches of the scan)
 
 (* update routines: curated hyper-parameters, PAIRWISE DISTINCT and non-default wherever two scalars are neighbours in a      *)
 (* positional call (each set is a separate jit specialisation of the routine, so the sets are few)                            *)
-EncW(d, r, t, e, m, l, c) == [DefPar EXCEPT !.dw = d, !.rw = r, !.tw = t, !.envterm = e, !.normtgt = m, !.lr = l, !.td = c]
-UpdEncSmall == {EncW(I(2), One,  Half, TRUE,  TRUE,  Half, 2),     \* all three weights distinct, two mini-batches
-                EncW(Half, I(2), One,  TRUE,  FALSE, One,  1),     \* one mini-batch (unrolled chain intact), raw targets
-                EncW(One,  Zero, I(2), TRUE,  TRUE,  One,  2),     \* no reward term: the total is an exact rational
-                EncW(I(2), Half, One,  FALSE, TRUE,  Half, 1)}     \* environment never terminates: done term dropped
-UpdEncMore  == {EncW(One,  One,  One,  TRUE,  TRUE,  Half, 2),     \* equal weights (the defaults' class)
-                EncW(One,  Half, I(2), TRUE,  FALSE, Half, 2),
-                EncW(Half, One,  I(2), FALSE, FALSE, One,  2),
-                EncW(I(2), One,  Zero, TRUE,  TRUE,  One,  1)}
-UpdMrqSmall == {[DefPar EXCEPT !.gamma = Half, !.rs = I(2), !.trs = One,  !.lr = Half],
+(* (the encoder's activation switch rides on the existing sets: all four (normalize_targets, activation-in-last-layer) pairs)   *)
+EncW(d, r, t, e, m, l, c, a) == [DefPar EXCEPT !.dw = d, !.rw = r, !.tw = t, !.envterm = e, !.normtgt = m, !.lr = l, !.td = c, !.actlast = a]
+UpdEncSmall == {[EncW(I(2), One,  Half, TRUE,  TRUE,  Half, 2, TRUE) EXCEPT !.act = "hard_tanh"],   \* all three weights distinct, two mini-batches
+                EncW(Half, I(2), One,  TRUE,  FALSE, One,  1, FALSE),    \* one mini-batch (unrolled chain intact), raw targets
+                EncW(One,  Zero, I(2), TRUE,  TRUE,  One,  2, FALSE),    \* no reward term: the total is an exact rational
+                EncW(I(2), Half, One,  FALSE, TRUE,  Half, 1, TRUE)}     \* environment never terminates: done term dropped
+UpdEncMore  == {EncW(One,  One,  One,  TRUE,  TRUE,  Half, 2, FALSE),    \* equal weights (the defaults' class)
+                EncW(One,  Half, I(2), TRUE,  FALSE, Half, 2, TRUE),
+                EncW(Half, One,  I(2), FALSE, FALSE, One,  2, FALSE),
+                [EncW(I(2), One,  Zero, TRUE,  TRUE,  One,  1, TRUE) EXCEPT !.act = "hard_tanh"]}
+UpdMrqSmall == {[DefPar EXCEPT !.gamma = Half, !.rs = I(2), !.trs = One,  !.lr = Half, !.actlast = TRUE],
                 [DefPar EXCEPT !.gamma = One,  !.rs = Half, !.trs = I(2), !.lr = One]}
+(* <<normalize_targets, activation in last layer, activation>>: every configuration is a separate compilation of the loss, so  *)
+(* the full lattice takes curated triples (the small lattice adds <<FALSE, TRUE, "relu">>: raw targets stay un-activated);    *)
+(* without the switch the activation reaches the action code only (identity there)                                            *)
+EncCfgV == {<<TRUE, FALSE, "relu">>, <<FALSE, FALSE, "relu">>, <<TRUE, TRUE, "relu">>, <<TRUE, TRUE, "hard_tanh">>}
+MrqCfgV == {<<FALSE, "relu">>, <<TRUE, "hard_tanh">>}
 ParSetFull(k) ==
   CASE k \in Disc \cup {"ddpg", "td3"} -> {[DefPar EXCEPT !.gamma = g] : g \in GV}
     [] k = "lap"  -> {[DefPar EXCEPT !.gamma = g, !.delta = d] : g \in GV, d \in DV}
     [] k = "sac"  -> {[DefPar EXCEPT !.gamma = g, !.alpha = a] : g \in GV, a \in AV}
     [] k = "td7"  -> {[DefPar EXCEPT !.gamma = g, !.delta = d, !.lo = c[1], !.hi = c[2]] : g \in GV, d \in DV, c \in ClipV}
-    [] k = "mrq"  -> {[DefPar EXCEPT !.gamma = g, !.rs = s, !.trs = t] : g \in GV, s \in SV, t \in SV}
+    [] k = "mrq"  -> {[DefPar EXCEPT !.gamma = g, !.rs = s, !.trs = t, !.actlast = a[1], !.act = a[2]] : g \in GV, s \in SV, t \in SV, a \in MrqCfgV}
     [] k = "sale" -> {DefPar}
-    [] k = "enc"  -> {[DefPar EXCEPT !.dw = d, !.rw = r, !.tw = t, !.envterm = e, !.normtgt = m] :
-                        d \in WgtV, r \in {Zero, One}, t \in WgtV, e \in BOOLEAN, m \in BOOLEAN}
+    [] k = "enc"  -> {[DefPar EXCEPT !.dw = d, !.rw = r, !.tw = t, !.envterm = e, !.normtgt = a[1], !.actlast = a[2], !.act = a[3]] :
+                        d \in WgtV, r \in {Zero, One}, t \in WgtV, e \in BOOLEAN, a \in EncCfgV}
     [] k = "encupd"  -> UpdEncSmall \cup UpdEncMore
     [] k = "saleupd" -> {[DefPar EXCEPT !.lr = l] : l \in LrV}
     [] k = "mrqupd"  -> UpdMrqSmall \cup {[DefPar EXCEPT !.gamma = Half, !.rs = One, !.trs = I(2), !.lr = One],
-                                          [DefPar EXCEPT !.gamma = One, !.rs = I(2), !.trs = Half, !.lr = Half]}
+                                          [DefPar EXCEPT !.gamma = One, !.rs = I(2), !.trs = Half, !.lr = Half, !.actlast = TRUE]}
 (* small lattice: curated combinations instead of products *)
 ParSetSmall(k) ==
   CASE k = "td7"  -> {[DefPar EXCEPT !.gamma = Half, !.delta = Half, !.lo = I(-1), !.hi = Zero],
                       [DefPar EXCEPT !.gamma = One, !.delta = One],
                       [DefPar EXCEPT !.gamma = One, !.delta = Half, !.lo = I(-1), !.hi = Zero],   \* gamma, min_priority, q_min, q_max pairwise distinct
                       [DefPar EXCEPT !.gamma = Half, !.delta = One, !.lo = I(-1), !.hi = Zero]}
-    [] k = "mrq"  -> {[DefPar EXCEPT !.gamma = Half, !.rs = I(2), !.trs = Half],
+    [] k = "mrq"  -> {[DefPar EXCEPT !.gamma = Half, !.rs = I(2), !.trs = Half, !.actlast = TRUE],
                       [DefPar EXCEPT !.gamma = One, !.rs = Half, !.trs = I(2)]}
-    [] k = "enc"  -> {DefPar,
-                      [DefPar EXCEPT !.dw = I(2), !.rw = One, !.normtgt = FALSE],
-                      [DefPar EXCEPT !.tw = I(2), !.envterm = FALSE],
-                      [DefPar EXCEPT !.rw = One, !.tw = I(2)]}
+    [] k = "enc"  -> {DefPar,                                                          \* (normalize_targets, activation in last layer) =
+                      [DefPar EXCEPT !.dw = I(2), !.rw = One, !.normtgt = FALSE],        \* (F, F)
+                      [DefPar EXCEPT !.tw = I(2), !.envterm = FALSE, !.actlast = TRUE],  \* (T, T)
+                      [DefPar EXCEPT !.rw = One, !.tw = I(2), !.actlast = TRUE, !.act = "hard_tanh"],   \* (T, T), another activation
+                      [DefPar EXCEPT !.dw = I(2), !.normtgt = FALSE, !.actlast = TRUE]}  \* (F, T): raw targets stay un-activated
     [] k = "encupd"  -> UpdEncSmall
     [] k = "mrqupd"  -> UpdMrqSmall
     [] OTHER      -> ParSetFull(k)
@@ -264,18 +290,53 @@ SaleEval(rws) ==
       tgt  |-> t,
       g    |-> [i \in Idx(rws) |-> [d \in VIdx |-> QDiv(QMul(I(2), QSub(rws[i].x.zsa[d], t[i][d])), I(2 * N))]]]
 
+(* ModelBasedEncoder: the stages between the raw output of the `zs` sub-network and a latent state.                        *)
+(* LNorm: the layer normalisation as realised by the binding (exact affine map, gain 2 and bias -1/4: no fixed point on the   *)
+(* lattices, both signs in its range, does not commute with Act); Act: the encoder's activation function (a constructor    *)
+(* argument: relu or hard_tanh = clip to [-1, 1]).                                                                            *)
+LnGain == I(2)
+LnBias == Q(-1, 4)
+LNorm(v) == [d \in VIdx |-> QAdd(QMul(LnGain, v[d]), LnBias)]
+ActFn(a, x) == CASE a = "relu" -> QMax(Zero, x) [] a = "hard_tanh" -> QClip(x, I(-1), One)
+Act(a, v)   == [d \in VIdx |-> ActFn(a, v[d])]
+InActRange(a, x) == CASE a = "relu" -> QLe(Zero, x) [] a = "hard_tanh" -> QLe(I(-1), x) /\ QLe(x, One)
+Stage(a, nm, v) == CASE nm = "zs_layer_norm" -> LNorm(v) [] nm = "activation" -> Act(a, v)
+RECURSIVE ApplyStages(_, _, _)
+ApplyStages(a, st, v) == IF Len(st) = 0 THEN Force(v, 2) ELSE ApplyStages(a, Tail(st), Force(Stage(a, Head(st), v), 2))
+(* encode_zs: layer norm, then the activation iff the encoder was built with encoder_activation_in_last_layer *)
+EncodeZsStages(p) == IF p.actlast THEN <<"zs_layer_norm", "activation">> ELSE <<"zs_layer_norm">>
+EncodeZs(p, raw)  == ApplyStages(p.act, EncodeZsStages(p), raw)
+(* dynamics target of the encoder loss: the TARGET encoder's encode_zs of the observed next state if normalize_targets,       *)
+(* else the raw output of its zs network; gradient-stopped either way                                                        *)
+DynTargetStagesDoc(p) == IF p.normtgt THEN EncodeZsStages(p) ELSE <<>>
+(* named deviation "tgtnoact": encode_zs re-implemented by hand (zs, then zs_layer_norm), the activation forgotten *)
+NoActStages(p)        == IF p.normtgt THEN <<"zs_layer_norm">> ELSE <<>>
+DynTargetStages(p)    == IF DEV = "tgtnoact" THEN NoActStages(p) ELSE DynTargetStagesDoc(p)
+DynTarget(p, raw)     == ApplyStages(p.act, DynTargetStages(p), raw)
+(* what the binding needs to build the two encoders and to realise TLC's numbers: configuration, stage lists, constants *)
+EncCfg(p) == [activation |-> p.act, ln_gain |-> LnGain, ln_bias |-> LnBias, actlast |-> p.actlast,
+              encode_zs |-> EncodeZsStages(p), dyn_target |-> DynTargetStagesDoc(p), dyn_target_noact |-> NoActStages(p),
+              dyn_target_encoder |-> "encoder_target"]
+
 (* MR.Q encoder loss: unrolled over H steps; a step counts for a row while no termination happened BEFORE it *)
 RECURSIVE Mask(_, _)
 Mask(ts, t) == IF t = 1 THEN 1 ELSE Mask(ts, t - 1) * (1 - ts[t - 1])           \* prev_not_done at step t
 MeanOver(rws, f(_)) == QMean([i \in Idx(rws) |-> f(i)])
 SqDist(u, v) == QAdd(QSq(QSub(u[1], v[1])), QSq(QSub(u[2], v[2])))
-EncStep(p, rws, t) ==
+(* targets of all row-steps for a given list of stages (b.tz = raw outputs of the target encoder's zs network at o'_t) *)
+TgtTable(a, rws, st) == Force([i \in Idx(rws) |-> Force([t \in 1..H |-> ApplyStages(a, st, rws[i].b.tz[t])], H)], Len(rws))
+(* the dynamics loss alone, for a given list of target stages *)
+DynOf(a, rws, st) ==
+  LET tg == TgtTable(a, rws, st)
+      dz(i, t) == QMul(I(Mask(rws[i].x.ts, t)), QMul(Half, SqDist(rws[i].x.pz[t], tg[i][t])))
+  IN QSum([t \in 1..H |-> QMean([i \in Idx(rws) |-> dz(i, t)])])
+EncStep(p, rws, tg, t) ==
   LET mk(i) == I(Mask(rws[i].x.ts, t))
       se(i) == QSq(QSub(rws[i].x.pd[t], I(rws[i].x.ts[t])))
       re(i) == QSq(QSub(RBar, rws[i].x.r[t]))
       bc(f(_)) == QMul(MeanOver(rws, f), MeanOver(rws, mk))      \* deviation: mean(se) * mean(mask)
       mm(f(_)) == LET g(i) == QMul(mk(i), f(i)) IN MeanOver(rws, g)
-      dz(i) == QMul(mk(i), QMul(Half, SqDist(rws[i].x.pz[t], rws[i].b.tz[t])))   \* mean over the 2 features
+      dz(i) == QMul(mk(i), QMul(Half, SqDist(rws[i].x.pz[t], tg[i][t])))         \* mean over the 2 features
   IN [dyn  |-> MeanOver(rws, dz),
       done |-> IF ~p.envterm THEN Zero ELSE IF DEV = "encbroadcast" THEN bc(se) ELSE mm(se),
       rmse |-> IF DEV = "encbroadcast" THEN bc(re) ELSE mm(re),
@@ -284,10 +345,11 @@ EncStep(p, rws, t) ==
       cr   |-> MeanOver(rws, mk)]
 EncEval(p, rws) ==
   LET N == Len(rws)
-      st == Force([t \in 1..H |-> EncStep(p, rws, t)], H)
+      tg == TgtTable(p.act, rws, DynTargetStages(p))
+      st == Force([t \in 1..H |-> EncStep(p, rws, tg, t)], H)
       dyn  == QSum([t \in 1..H |-> st[t].dyn])
       done == QSum([t \in 1..H |-> st[t].done])
-  IN [dyn |-> dyn, done |-> done,
+  IN [dyn |-> dyn, done |-> done, tgt |-> tg,
       rmse |-> QSum([t \in 1..H |-> st[t].rmse]),
       cr   |-> QSum([t \in 1..H |-> st[t].cr]),          \* reward CE loss = cr * ln(#bins) for uniform logits
       exact |-> QAdd(QMul(p.dw, dyn), QMul(p.tw, done)), \* total loss minus rw * reward loss
@@ -304,7 +366,9 @@ EncEval(p, rws) ==
                 ELSE QDiv(QMul(QMul(QMul(p.tw, I(2)), st[t].cr), QSub(rws[i].x.pd[t], I(rws[i].x.ts[t]))), I(N))]],
       \* d total / d predicted latent state of the LAST step (no downstream use)
       gz |-> [i \in Idx(rws) |-> [d \in VIdx |->
-                QDiv(QMul(QMul(p.dw, I(Mask(rws[i].x.ts, H))), QSub(rws[i].x.pz[H][d], rws[i].b.tz[H][d])), I(N))]]]
+                QDiv(QMul(QMul(p.dw, I(Mask(rws[i].x.ts, H))), QSub(rws[i].x.pz[H][d], tg[i][H][d])), I(N))]]]
+(* classification only: the dynamics loss the named deviation "tgtnoact" would return *)
+EncDevs(p, rws) == [dyn_noact |-> DynOf(p.act, rws, NoActStages(p))]
 
 ----------------------------------------------------------------------------
 (* Update routines.  The routine receives hyper-parameters p; InnerPar is what its inner (positional) call of the loss    *)
@@ -326,11 +390,12 @@ TwoHot(r) == [k \in 1..NB |->
 EncGrads(p, rws) ==
   LET N == Len(rws)
       mk(i, t) == I(Mask(rws[i].x.ts, t))
+      tg == TgtTable(p.act, rws, DynTargetStages(p))
   IN [gd |-> [i \in Idx(rws) |-> [t \in 1..H |->
                 IF ~p.envterm THEN Zero
                 ELSE QDiv(QMul(QMul(p.tw, QMul(I(2), mk(i, t))), QSub(rws[i].x.pd[t], I(rws[i].x.ts[t]))), I(N))]],
       gz |-> [i \in Idx(rws) |-> [t \in 1..H |-> [d \in VIdx |->
-                QDiv(QMul(QMul(p.dw, mk(i, t)), QSub(rws[i].x.pz[t][d], rws[i].b.tz[t][d])), I(N))]]],
+                QDiv(QMul(QMul(p.dw, mk(i, t)), QSub(rws[i].x.pz[t][d], tg[i][t][d])), I(N))]]],
       gr |-> [i \in Idx(rws) |-> [t \in 1..H |-> LET th == TwoHot(rws[i].x.r[t]) IN [k \in 1..NB |->
                 QDiv(QMul(QMul(p.rw, mk(i, t)), QSub(Q(1, NB), th[k])), I(N))]]]]
 
@@ -348,7 +413,10 @@ EncUpdate(p, rws) ==
       exact(m) == ev[m].exact     dyn(m) == ev[m].dyn     done(m) == ev[m].done     rmse(m) == ev[m].rmse    cr(m) == ev[m].cr
       wcr(m) == QMul(q.rw, ev[m].cr)
       ebc(m) == ev[m].exact_bc    dbc(m) == ev[m].done_bc    rbc(m) == ev[m].rmse_bc
+      dna(m) == DynOf(q.act, mb(m), NoActStages(q))
   IN [exact |-> mean(exact), dyn |-> mean(dyn), done |-> mean(done), rmse |-> mean(rmse),
+      dyn_noact |-> mean(dna),     \* classification only
+      tgt |-> [i \in Idx(rws) |-> ev[mOf(i)].tgt[lOf(i)]],
       cr  |-> mean(cr),            \* returned reward loss = cr * ln(#bins)
       wcr |-> mean(wcr),           \* returned total = exact + wcr * ln(#bins)
       exact_bc |-> mean(ebc), done_bc |-> mean(dbc), rmse_bc |-> mean(rbc),
@@ -375,7 +443,7 @@ CriticUpdate(p, e) ==
 (* set of admissible complete results *)
 Alts(k, p, rws) ==
   CASE k = "sale" -> {SaleEval(rws)}
-    [] k = "enc"  -> {EncEval(p, rws)}
+    [] k = "enc"  -> {EncEval(p, rws) @@ EncDevs(p, rws)}
     [] k = "encupd"  -> {EncUpdate(p, rws)}
     [] k = "saleupd" -> {SaleUpdate(p, rws)}
     [] k = "mrqupd"  -> {CriticUpdate(p, Eval("mrq", InnerPar(p), rws, ch)) : ch \in ChoiceSeqs("mrq", p, rws, Len(rws))}
@@ -419,7 +487,8 @@ Irrelevant(k, rws) ==
 
 Emit(alts) ==
   EMIT => PrintT(<<"EMIT", ToJson([kind |-> kind, n |-> n, par |-> par, rows |-> rows, alts |-> alts,
-                                    zero |-> ZeroGroups(Base(kind)), support |-> Deps(Base(kind)), irr |-> Irrelevant(kind, rows)])>>)
+                                    zero |-> ZeroGroups(Base(kind)), support |-> Deps(Base(kind)), irr |-> Irrelevant(kind, rows),
+                                    enc |-> IF Base(kind) \in {"enc", "mrq"} THEN EncCfg(par) ELSE <<>>])>>)
 
 Init == stage = "kind" /\ kind = "" /\ n = 0 /\ par = <<>> /\ pend = <<>> /\ rows = <<>>
 
@@ -476,6 +545,20 @@ AfterTermIgnored ==
                                  ![i].x.r[t] = I(0), ![i].x.ts[t] = 1 - rows[i].x.ts[t]]
              a == EncEval(par, alt)
          IN <<a.dyn, a.done, a.rmse, a.cr, a.exact>> = <<o.dyn, o.done, o.rmse, o.cr, o.exact>>
+
+(* MR.Q encoder configuration: the dynamics targets are the raw zs outputs when normalize_targets is off, and the very map   *)
+(* the predictions' f(o_0) goes through (encode_zs: layer norm, activation iff activation-in-last-layer) when it is on - in    *)
+(* particular targets live in the activation's range then; the dynamics loss is the masked MSE against exactly these targets  *)
+EncoderConfigLaw ==
+  (Done /\ Base(kind) = "enc") =>
+    /\ \A i \in Idx(rows) : \A t \in 1..H :
+         LET raw == rows[i].b.tz[t]
+             tg  == DynTarget(par, raw)
+         IN /\ (~par.normtgt => tg = raw)
+            /\ (par.normtgt => tg = EncodeZs(par, raw))
+            /\ (par.normtgt /\ par.actlast => \A d \in VIdx : InActRange(par.act, tg[d]))
+    /\ EncEval(par, rows).dyn = DynOf(par.act, rows, DynTargetStagesDoc(par))
+    /\ EncEval(par, rows).tgt = TgtTable(par.act, rows, DynTargetStagesDoc(par))
 
 (* order of the batch is irrelevant; per-sample outputs move with their rows *)
 Swap(s) == [i \in Idx(s) |-> IF i = 1 THEN s[2] ELSE IF i = 2 THEN s[1] ELSE s[i]]
